@@ -192,6 +192,10 @@ def show_term(t, depth=0):
         return show_poly(t)
     if not isinstance(t, tuple):
         return str(t)
+    if not t:
+        return "()"
+    if not isinstance(t[0], str):
+        return "(" + ", ".join(show_term(x, depth + 1) for x in t) + ")"
     if t[0] == "v":
         return str(t[1])
     if depth > 6:
@@ -399,11 +403,27 @@ def t_len(t):
         return Poly.atom(("nzero", t[1]))
     if op == "inj":
         return t_sum(t[3])
+    if op in ("lmap", "emap", "upd", "enum", "lens"):
+        return t_len(t[1])
+    if op == "umap":
+        return t_len(t[2])
+    if op == "flat":
+        # keyed by the per-element length, so that element-wise re-labelling keeps the total
+        return Poly.atom(("flatlen", flat_base(t[1]), t_len(t[2])))
+    if op == "single":
+        return Poly.const(1)
     if op == "Fsizes":
         return t_len(t[2])
     if op == "Fmap":
-        return t_sum(("Fsizes", t[1], t[2]))
+        return Poly.atom(("sum", ("Fsizes", t[1], t[2])))
     return Poly.atom(("len", t))
+
+
+def flat_base(S):
+    """The list whose elements are enumerated by S (element-wise maps keep the enumeration)."""
+    while S[0] in ("lmap", "emap", "umap") :
+        S = S[1] if S[0] != "umap" else S[2]
+    return S
 
 
 def t_sum(t):
@@ -427,6 +447,10 @@ def t_sum(t):
         return t_sum(t[2]) + t[1] * t_len(t[2])
     if op == "add":
         return t_sum(t[1]) + t_sum(t[2])
+    if op == "lens":
+        return t_len(("flat", t[1], t[2]))
+    if op == "Fsizes":
+        return t_len(("Fmap", t[1], t[2]))
     if op == "gather" and is_perm_term(t[2]) and t_len(t[1]) == t_len(t[2]):
         # PERM-SUM: re-indexing along a permutation of all positions preserves the sum
         return t_sum(t[1])
@@ -503,7 +527,11 @@ def ubs(st, t):
         out.append(t[2])
     elif op == "inj":
         out.append(t_sum(t[1]))
-    if op in ("v", "gather", "concat", "repeat", "slice", "emap", "segsum"):
+    elif op == "at":
+        out += list(st.bnd.get(("el", t[1], t[2]), ()))
+    elif op == "flat":
+        out += ubs(st, t[2])
+    if op in ("v", "gather", "concat", "repeat", "slice", "emap", "segsum", "lens"):
         # naturals: every element is <= the sum of all elements
         out.append(t_sum(t) + 1)
     import rules_terms
@@ -724,12 +752,18 @@ def mk_add(st, a, b):
     return ("add", a, b)
 
 
+OPAQUE_OPS = {"lmap", "single", "flat", "lens", "emap", "zip", "enum", "filtermap", "list", "upd", "el", "at",
+              "umap", "truncate", "rec", "seq", "nat", "tup", "user", "unit", "enum", "bool", "top"}
+
+
 def normalise(st, t, depth=0):
     """Normal form of a term under the array algebra and the established equalities."""
-    if not isinstance(t, tuple) or depth > 30:
+    if not isinstance(t, tuple) or depth > 30 or not t or not isinstance(t[0], str):
         return t
     op = t[0]
-    if op == "empty":
+    if op in OPAQUE_OPS:
+        r = t
+    elif op == "empty":
         r = t
     elif op == "v":
         r = EMPTY if _known_empty(st, t) else t
